@@ -23,12 +23,14 @@ func c09(c *eng.Ctx, r *eng.Report) {
 		"R9.2 for each codec pair every field of the Go struct is read by the encoder and written by the decoder (reviewed exclusions listed), every field the identifying hash covers is among them, and *big.Int fields are reconstructed under a nil (presence) test, not a length test, so that zero survives; " +
 		"R9.3 discarded errors of time/JSON (un)marshalling inside the converters are listed; " +
 		"R9.4 values cross the codec verbatim — every call made by a codec function of middleware/types (and the same-package helpers it reaches) is a reviewed value-preserving conversion, a generated getter or a sibling codec function, and no output element aliases a loop variable that the next iteration overwrites. " +
+		"R9.5 inside the parsers (UnMarshal*, PbTo*) a Go-side pointer that a converter may have left nil — the result of a converter with a nil return, or a struct field such a result was stored in (Block.Header) — is dereferenced only under a nil test. " +
 		"Not decided: value equality after a round trip (nil-vs-empty slices, time zones)."
 	r.Assume = []string{"golang/protobuf proto2 Unmarshal returns an error when a `req` field is absent", "generated GetX() accessors are nil-safe"}
 	c09NilGuards(c, r)
 	c09Coverage(c, r)
 	c09Errors(c, r)
 	c09Verbatim(c, r)
+	c09GoNil(c, r)
 }
 
 // pbFieldTag returns "opt", "req" or "rep" for field f of a pb struct type.
@@ -567,4 +569,130 @@ func c09Errors(c *eng.Ctx, r *eng.Report) {
 		}
 	}
 	var _ = sort.Strings
+}
+
+// c09GoNil: R9.1 covers pointers that come out of the protobuf message; this
+// covers the ones the converters themselves produce. PbToBlockHeader(nil)
+// returns nil, PbToBlock stores that in Block.Header, and a parser that goes on
+// to look inside the header it just built crashes on a block without one.
+func c09GoNil(c *eng.Ctx, r *eng.Report) {
+	const rule = "R9.5"
+	isParser := func(fn *ssa.Function) bool {
+		n := fn.Name()
+		return strings.HasPrefix(n, "UnMarshal") || strings.HasPrefix(n, "PbTo") || strings.HasPrefix(n, "pbTo")
+	}
+	nilable := map[*ssa.Function]bool{}
+	// onlyForNilArg[fn] = i: every nil return of fn sits on the `param i == nil` edge
+	onlyForNilArg := map[*ssa.Function]int{}
+	for _, fn := range c.PkgFuncs(typesPkg) {
+		if c.IsTestFunc(fn) || !isParser(fn) || fn.Signature.Results().Len() == 0 {
+			continue
+		}
+		if _, isPtr := fn.Signature.Results().At(0).Type().Underlying().(*types.Pointer); !isPtr {
+			continue
+		}
+		for _, re := range eng.Returns(fn) {
+			if eng.IsNilConst(re.Incoming(0)) {
+				// a nil result that comes with a non-nil error is the caller's to check through the error
+				if fn.Signature.Results().Len() > 1 {
+					continue
+				}
+				nilable[fn] = true
+				idx := -1
+				blk := re.Ret.Block()
+				if re.Pred != nil {
+					blk = re.Pred
+				}
+				for _, cd := range eng.EdgeConds(blk) {
+					if m, ok := cd.Cmp(); ok && m.Op == token.EQL {
+						for i, prm := range fn.Params {
+							if (m.X == ssa.Value(prm) && eng.IsNilConst(m.Y)) || (m.Y == ssa.Value(prm) && eng.IsNilConst(m.X)) {
+								idx = i
+							}
+						}
+					}
+				}
+				if prev, had := onlyForNilArg[fn]; had && prev != idx {
+					idx = -1
+				}
+				onlyForNilArg[fn] = idx
+			}
+		}
+	}
+	fromNilable := func(v ssa.Value) bool {
+		call, ok := v.(*ssa.Call)
+		if !ok || call.Call.StaticCallee() == nil || !nilable[call.Call.StaticCallee()] {
+			return false
+		}
+		// nil only for a nil argument, and the argument is the address of a local: cannot be nil here
+		if i := onlyForNilArg[call.Call.StaticCallee()]; i >= 0 && i < len(call.Call.Args) {
+			if _, isAlloc := call.Call.Args[i].(*ssa.Alloc); isAlloc {
+				return false
+			}
+		}
+		return true
+	}
+	nilField := map[string]bool{}
+	for _, fn := range c.PkgFuncs(typesPkg) {
+		if c.IsTestFunc(fn) {
+			continue
+		}
+		for _, b := range fn.Blocks {
+			for _, in := range b.Instrs {
+				if st, ok := in.(*ssa.Store); ok && fromNilable(st.Val) {
+					if t, f := eng.FieldOf(st.Addr); t != "" {
+						nilField[t+"."+f] = true
+					}
+				}
+			}
+		}
+	}
+	guarded := func(at ssa.Instruction, ptr ssa.Value) bool {
+		want := eng.Desc(ptr)
+		for _, cd := range eng.CondsAt(at) {
+			m, ok := cd.Cmp()
+			if !ok || m.Op != token.NEQ {
+				continue
+			}
+			if eng.IsNilConst(m.Y) && (m.X == ptr || eng.Desc(m.X) == want) || eng.IsNilConst(m.X) && (m.Y == ptr || eng.Desc(m.Y) == want) {
+				return true
+			}
+		}
+		return false
+	}
+	n := 0
+	seen := map[string]bool{}
+	for _, fn := range c.PkgFuncs(typesPkg) {
+		if c.IsTestFunc(fn) || !isParser(fn) {
+			continue
+		}
+		for _, b := range fn.Blocks {
+			for _, in := range b.Instrs {
+				fa, ok := in.(*ssa.FieldAddr)
+				if !ok {
+					continue
+				}
+				what := ""
+				if fromNilable(fa.X) {
+					what = "the result of " + eng.FuncName(fa.X.(*ssa.Call).Call.StaticCallee())
+				} else if ld, isL := fa.X.(*ssa.UnOp); isL && ld.Op == token.MUL {
+					if t, f := eng.FieldOf(ld.X); t != "" && nilField[t+"."+f] {
+						what = "field " + t + "." + f + " (filled from a converter that returns nil for an absent message)"
+					}
+				}
+				if what == "" {
+					continue
+				}
+				key := "go-nil:" + eng.FuncName(fn) + ":" + eng.Desc(fa.X)
+				if seen[key] {
+					continue
+				}
+				seen[key] = true
+				n++
+				r.Check(guarded(fa, fa.X), rule, key, c.Pos(fa.Pos()), "dereferenced under a nil test", eng.FuncName(fn)+" looks inside "+what+" without a nil test: bytes that omit (or garble) that part make the converter return nil and the parser dies with a nil-pointer panic instead of returning an object or an error")
+			}
+		}
+	}
+	r.Extra["nilable_converters"] = len(nilable)
+	r.Check(len(nilable) >= 1 && len(nilField) >= 1, rule, "go-nil:sources", "", fmt.Sprintf("%d converters may return nil, %d struct fields are filled from them, %d dereferences inside parsers", len(nilable), len(nilField), n), "no converter with a nil return / no field filled from one was found (PbToBlockHeader → Block.Header expected): the rule has lost sight of the parsers")
 }
